@@ -308,10 +308,31 @@ fn reject_oracle(c: &Reject) -> Verdict {
     }
 }
 
+// ---------------------------------------------------------------- second = 60: every month end 1960-2030 (exhaustive)
+fn leap60_enum(_t: Tier, shard: usize, sink: &mut dyn FnMut(Reject) -> bool) {
+    let mut i = 0usize;
+    for y in 1960..=2030i32 {
+        for m in 1..=12u8 {
+            let last = month_len(y as i64, m as u32) as u8;
+            for d in [last, last - 1, 1] {
+                for (hh, mm) in [(23u8, 59u8), (23, 58), (22, 59), (0, 0)] {
+                    for ns in [0u32, 999_999_999, 1_000_000_001] {
+                        i += 1;
+                        if i % SHARDS == shard && !sink(Reject { y, m, d, hh, mm, ss: 60, ns, s: i % 9 }) {
+                            return;
+                        }
+                    }
+                }
+            }
+        }
+    }
+}
+
 pub fn subs() -> Vec<Box<dyn DynSub>> {
     vec![
         sub(Sub { name: "c08.all_days", source: Source::Enum(valid_enum, |_| true), oracle: valid_oracle, known: no_known, hang_is_violation: false }),
         sub(Sub { name: "c08.generated_times", source: Source::Gen(valid_gen_strategy, 800_000, 20_000_000), oracle: valid_oracle, known: no_known, hang_is_violation: false }),
+        sub(Sub { name: "c08.second_60", source: Source::Enum(leap60_enum, |_| true), oracle: reject_oracle, known: reject_known, hang_is_violation: false }),
         sub(Sub { name: "c08.rejection", source: Source::Gen(reject_strategy, 800_000, 12_000_000), oracle: reject_oracle, known: reject_known, hang_is_violation: false }),
     ]
 }
